@@ -1018,6 +1018,39 @@ static void stage_lateerr(void) {
   vb_free(&b);
 }
 
+/* ---- stage: pairlen — two strings side by side, every pair of lengths ----
+ * Length sweeps vary one string at a time; code that combines two strings (a key and its value on one output line, two
+ * members in one scratch buffer, a chunk appended to its predecessor) depends on the SUM or on a relation of two lengths.
+ * Every (a, b) in 0..72 x 0..72 for five arrangements and the four text/bytes combinations. */
+static void stage_pairlen(void) {
+  struct vh_buf b = {0};
+  uint64_t unit = 0;
+  for (int arr = 0; arr < 5; arr++)
+    for (int kinds = 0; kinds < 4; kinds++)
+      for (size_t la = 0; la <= 72; la++) {
+        if ((int)(unit++ % (uint64_t)O.nshards) != O.shard) continue;
+        for (size_t lb = 0; lb <= 72; lb++) {
+          vb_reset(&b);
+          unsigned ma = (kinds & 1) ? 3 : 2, mb = (kinds & 2) ? 3 : 2;
+          switch (arr) {
+            case 0: vb_u8(&b, 0xa1); break;                 /* {a: b} */
+            case 1: vb_u8(&b, 0x82); break;                 /* [a, b] */
+            case 2: vb_u8(&b, 0xbf); break;                 /* {_ a: b} */
+            case 3: vb_u8(&b, 0xa2); vb_u8(&b, 0x01); break; /* {1: a, b: 2} */
+            default: if (ma != mb) continue; vb_u8(&b, (uint8_t)(ma << 5 | 31)); break; /* (_ a, b) two chunks */
+          }
+          if (la < 24) vb_u8(&b, (uint8_t)(ma << 5 | la)); else { vb_u8(&b, (uint8_t)(ma << 5 | 24)); vb_u8(&b, (uint8_t)la); }
+          for (size_t i = 0; i < la; i++) vb_u8(&b, (uint8_t)('a' + i % 26));
+          if (lb < 24) vb_u8(&b, (uint8_t)(mb << 5 | lb)); else { vb_u8(&b, (uint8_t)(mb << 5 | 24)); vb_u8(&b, (uint8_t)lb); }
+          for (size_t i = 0; i < lb; i++) vb_u8(&b, (uint8_t)('A' + i % 26));
+          if (arr == 3) vb_u8(&b, 0x02);
+          if (arr == 2 || arr == 4) vb_u8(&b, 0xff);
+          run_input(b.p, b.n);
+        }
+      }
+  vb_free(&b);
+}
+
 static void load_run(void) {
   setup();
   size_t bytesN = O.thorough ? 4 : 3;
@@ -1034,6 +1067,7 @@ static void load_run(void) {
   else if (!strcmp(st, "gianterr")) stage_gianterr();
   else if (!strcmp(st, "bigleaf")) stage_bigleaf();
   else if (!strcmp(st, "lateerr")) stage_lateerr();
+  else if (!strcmp(st, "pairlen")) stage_pairlen();
   else vh_die("driver load: unknown stage '%s'", st);
   if (P == 1) vh_set_rule("every enumerated/generated input is run through load, describe, size, serialize, serialize_alloc, copy, release and two streaming passes under ASan+UBSan with CBOR_ASSERT armed; non-trivial = the decoder got past the first head (an item was built, or the failure is a hard error / truncation after at least one complete head); distinct by construction in the exhaustive sweep, by 64-bit hash elsewhere (inputs short enough to be in the sweep are not counted again)");
   else if (P == 2) vh_set_rule("each input is decoded by cbor_load and by the independent RFC 8949 reference decoder; non-trivial = at least one side accepts (tree, read and ownership are then compared); distinct by construction in the exhaustive sweep, by hash elsewhere");
